@@ -412,13 +412,17 @@ func genLineFloat(t *rapid.T) Case {
 // from the origin: heavy cancellation), mixed exponents, and the two ends of the
 // float64 range where products of differences underflow or overflow.
 func genRingFloat(t *rapid.T) Case {
-	mclass := rapid.SampledFrom([]string{"moderate", "moderate", "offset", "mixed", "tiny", "huge", "fullrange", "int32", "int64"}).Draw(t, "mclass")
+	mclass := rapid.SampledFrom([]string{"moderate", "moderate", "offset", "mixed", "tiny", "huge", "fullrange", "int32", "int64", "wholewide"}).Draw(t, "mclass")
 	base := 0
 	switch mclass {
 	case "tiny":
 		base = rapid.SampledFrom([]int{-1074, -1060, -1030, -1022, -1000, -600, -540, -520}).Draw(t, "base")
 	case "huge":
 		base = rapid.SampledFrom([]int{500, 511, 512, 540, 1000, 1015, 1022}).Draw(t, "base")
+	}
+	wideShift := 0
+	if mclass == "wholewide" {
+		wideShift = rapid.SampledFrom([]int{0, 4, 8, 10, 11, 12}).Draw(t, "wideshift")
 	}
 	ox, oy := 0.0, 0.0
 	if mclass == "offset" {
@@ -440,6 +444,15 @@ func genRingFloat(t *rapid.T) Case {
 		}
 		var e int
 		switch mclass {
+		case "wholewide":
+			// whole numbers, small (within a thousand) or anywhere up to 2^62: edges that run
+			// from next to the query point to more than 2^53 units away
+			// (the small ones are multiples of a power of two drawn per case, so that their
+			// differences with the large ones can be exactly representable)
+			if rapid.Bool().Draw(t, l+"small") {
+				return math.Ldexp(float64(rapid.IntRange(-1000, 1000).Draw(t, l+"sv")), wideShift)
+			}
+			return float64(rapid.Int64Range(-1<<62, 1<<62).Draw(t, l+"wv"))
 		case "int32", "int64":
 			// whole numbers over the full range of a machine integer: differences need one
 			// more bit than the type, products of differences twice as many
@@ -509,6 +522,17 @@ func genRingFloat(t *rapid.T) Case {
 		if rapid.Bool().Draw(t, "trand") {
 			tt = rapid.Float64Range(0, 1).Draw(t, "tv")
 		}
+		if mclass == "wholewide" && rapid.Bool().Draw(t, "fewunits") {
+			// a few units along the edge from its start, then to the nearest whole numbers
+			// and a unit aside
+			if m := math.Max(math.Abs(b[0].V()-a[0].V()), math.Abs(b[1].V()-a[1].V())); m > 0 {
+				tt = math.Ldexp(float64(rapid.IntRange(1, 6).Draw(t, "units")), wideShift) / m
+			}
+			unit := math.Ldexp(1, wideShift)
+			px = fin((math.Round((a[0].V()+tt*(b[0].V()-a[0].V()))/unit) + float64(rapid.IntRange(-1, 1).Draw(t, "ux"))) * unit)
+			py = fin((math.Round((a[1].V()+tt*(b[1].V()-a[1].V()))/unit) + float64(rapid.IntRange(-1, 1).Draw(t, "uy"))) * unit)
+			break
+		}
 		px = fin(a[0].V() + tt*(b[0].V()-a[0].V()))
 		py = fin(a[1].V() + tt*(b[1].V()-a[1].V()))
 		px = fin(nudge(px, rapid.IntRange(-3, 3).Draw(t, "nx")))
@@ -530,7 +554,53 @@ func genRingFloat(t *rapid.T) Case {
 	return Case{Mode: "ringfloat", Class: mclass + "/" + class, RingF: ring, PF: [2]model.F{model.Of(px), model.Of(py)}}
 }
 
+// genRingWide: a long thin triangle of whole numbers. One vertex lies a few units from
+// the query point, the next one 2^52..2^61 units away in a direction of small whole
+// numbers, so that the edge passes the point at a distance far below one unit (or
+// through it); the small ordinates are multiples of a power of two, so that every
+// difference with a large one can be exactly representable, while the products of the
+// differences need up to 125 bits.
+func genRingWide(t *rapid.T) Case {
+	unit := math.Ldexp(1, rapid.SampledFrom([]int{0, 4, 8, 10, 11, 12}).Draw(t, "shift"))
+	w := func(l string, lim int) float64 { return float64(rapid.IntRange(-lim, lim).Draw(t, l)) * unit }
+	px, py := w("px", 100), w("py", 100)
+	u, v := float64(rapid.IntRange(-7, 7).Draw(t, "u")), float64(rapid.IntRange(-7, 7).Draw(t, "v"))
+	if u == 0 && v == 0 {
+		v = 1
+	}
+	// the near vertex k steps back along the edge direction from the point (the point
+	// then lies on the edge up to the rounding of the far vertex), now and then a unit aside
+	k := float64(rapid.IntRange(1, 3).Draw(t, "k"))
+	ax, ay := px-k*u*unit, py-k*v*unit
+	if rapid.IntRange(0, 3).Draw(t, "aside") == 0 {
+		ax += w("dax", 1)
+		ay += w("day", 1)
+	}
+	m := float64(rapid.Int64Range(1<<52, 1<<60).Draw(t, "m"))
+	bx, by := nudge(ax+m*u, rapid.IntRange(-2, 2).Draw(t, "nbx")), nudge(ay+m*v, rapid.IntRange(-2, 2).Draw(t, "nby"))
+	var cx, cy float64
+	switch rapid.IntRange(0, 2).Draw(t, "third") {
+	case 0:
+		cx, cy = ax-w("cx", 1000), by
+	case 1:
+		cx, cy = ax-m*v/2, ay+m*u/2
+	default:
+		cx, cy = bx, ay+w("cy", 1000)
+	}
+	tri := [][2]model.F{{model.Of(ax), model.Of(ay)}, {model.Of(bx), model.Of(by)}, {model.Of(cx), model.Of(cy)}}
+	if rapid.Bool().Draw(t, "rev") {
+		tri[1], tri[2] = tri[2], tri[1]
+	}
+	r := rapid.IntRange(0, 2).Draw(t, "rot")
+	ring := append(append([][2]model.F{}, tri[r:]...), tri[:r]...)
+	ring = append(ring, ring[0])
+	return Case{Mode: "ringfloat", Class: "wholewide/long-edge", RingF: ring, PF: [2]model.F{model.Of(px), model.Of(py)}}
+}
+
 func genCase(t *rapid.T) Case {
+	if rapid.IntRange(0, 14).Draw(t, "ringwide") == 7 {
+		return genRingWide(t)
+	}
 	switch rapid.IntRange(0, 11).Draw(t, "mode") {
 	case 0, 1:
 		return genLineCase(t)
